@@ -216,6 +216,7 @@ type lastApplied struct {
 func (r *Raft) lastApplied() uint64 {
 	t := lastApplied{newTask()}
 	r.fsm.ch <- t
+	verifPoint(r, "fsm.wait")
 	<-t.done
 	return t.result.(uint64)
 }
